@@ -531,13 +531,238 @@ pub fn case(t: &mut Tape, scratch: &Scratch) -> CaseResult {
     })
 }
 
+// ------------------------------------------------------------------------------------------
+// which file is read when several candidates exist (every format build)
+
+/// the extensions of the format this harness build was compiled for
+fn format_exts() -> &'static [&'static str] {
+    if cfg!(feature = "yaml_files") {
+        &["yaml", "yml"]
+    } else if cfg!(feature = "json5_files") {
+        &["json5"]
+    } else {
+        &["json"]
+    }
+}
+
+/// endings that must never be read in any build of this format (other formats, case variants, backups)
+fn decoy_endings() -> Vec<&'static str> {
+    let mut v = vec!["YAML", "Yml", "JSON", "yaml.bak", "yml~", "json.orig", "txt", "toml", "yaml.yml.old"];
+    for e in ["json", "json5", "yaml", "yml"] {
+        if !format_exts().contains(&e) {
+            v.push(e);
+        }
+    }
+    v
+}
+
+/// one layout: per unit (namespace, locale) the extensions under which a valid file exists and the decoys next to it
+#[derive(Debug, Clone)]
+struct Layout {
+    dir_name: String,
+    locales: Vec<String>,
+    namespaces: Option<Vec<String>>,
+    units: Vec<(Option<String>, String, Vec<&'static str>, Vec<&'static str>)>,
+}
+
+impl Layout {
+    fn rel(ns: &Option<String>, loc: &str, ext: &str) -> String {
+        match ns {
+            Some(n) => format!("{loc}/{n}.{ext}"),
+            None => format!("{loc}.{ext}"),
+        }
+    }
+
+    fn write(&self, dir: &Path) -> std::io::Result<()> {
+        let _ = std::fs::remove_dir_all(dir);
+        let ldir = dir.join(&self.dir_name);
+        std::fs::create_dir_all(&ldir)?;
+        let mut man = String::from("[package]\nname = \"app\"\nversion = \"0.1.0\"\nedition = \"2021\"\n\n[package.metadata.leptos-i18n]\n");
+        man.push_str(&format!("default = \"{}\"\nlocales = [{}]\n", self.locales[0], self.locales.iter().map(|l| format!("\"{l}\"")).collect::<Vec<_>>().join(", ")));
+        if let Some(ns) = &self.namespaces {
+            man.push_str(&format!("namespaces = [{}]\n", ns.iter().map(|l| format!("\"{l}\"")).collect::<Vec<_>>().join(", ")));
+        }
+        if self.dir_name != "locales" {
+            man.push_str(&format!("locales-dir = \"./{}\"\n", self.dir_name));
+        }
+        std::fs::write(dir.join("Cargo.toml"), man)?;
+        for (ns, loc, exts, decoys) in &self.units {
+            if ns.is_some() {
+                std::fs::create_dir_all(ldir.join(loc))?;
+            }
+            for e in exts {
+                let rel = Self::rel(ns, loc, e);
+                // the same text is valid JSON, JSON5 and YAML; the value names the file it was written to
+                std::fs::write(ldir.join(&rel), format!("{{\"k\": \"{rel}\"}}"))?;
+            }
+            for e in decoys {
+                std::fs::write(ldir.join(Self::rel(ns, loc, e)), "]]] not a translation file {{{ : - \"")?;
+            }
+        }
+        Ok(())
+    }
+}
+
+/// load a layout; returns per unit the relative path of the file that was read
+fn observe_layout(l: &Layout, dir: &Path) -> Result<Vec<String>, Failure> {
+    let detail = |extra: serde_json::Value| json!({"layout": format!("{:?}", l), "format_extensions": format_exts(), "extra": extra});
+    l.write(dir).map_err(|e| fail("harness-io", json!({"e": e.to_string()})))?;
+    let loaded = match eval::load(dir) {
+        eval::LoadOutcome::Ok(x) => x,
+        eval::LoadOutcome::Err(e) => return Err(fail("ext-rejected-valid-layout", detail(json!({"error": e.to_string()})))),
+        eval::LoadOutcome::Panic(m) => return Err(fail("panic", detail(json!({"panic": m})))),
+    };
+    let base = norm_path(&dir.join(&l.dir_name).to_string_lossy());
+    let tracked: Vec<String> = loaded
+        .tracked
+        .iter()
+        .map(|p| {
+            let n = norm_path(p);
+            n.strip_prefix(&format!("{base}/")).map(|s| s.to_string()).unwrap_or(n)
+        })
+        .collect();
+    let mut chosen = vec![];
+    for (ns, loc, exts, _) in &l.units {
+        let candidates: Vec<String> = exts.iter().map(|e| Layout::rel(ns, loc, e)).collect();
+        let read: Vec<&String> = tracked.iter().filter(|p| candidates.contains(p)).collect();
+        if read.len() != 1 {
+            return Err(fail("ext-tracked-mismatch", detail(json!({"unit": Layout::rel(ns, loc, "*"), "candidates": candidates, "tracked": tracked}))));
+        }
+        // the content comes from the file reported as read
+        let got = loaded.eval(ns.as_deref(), loc, &["k".to_string()], &Default::default()).map(|t| vcommon::model::tree_to_string(&t));
+        if got.as_ref().ok() != Some(read[0]) {
+            return Err(fail("ext-content-not-from-tracked-file", detail(json!({"unit": Layout::rel(ns, loc, "*"), "tracked": read[0], "content": format!("{:?}", got)}))));
+        }
+        chosen.push(read[0].clone());
+    }
+    if tracked.len() != l.units.len() {
+        return Err(fail("ext-tracked-mismatch", detail(json!({"tracked": tracked, "units": l.units.len()}))));
+    }
+    Ok(chosen)
+}
+
+/// layout A, then layout B that differs from A only in the files of ONE unit: every other unit must be read from the
+/// same file as before (the extension found for one file says nothing about another one)
+pub fn ext_case(t: &mut Tape, scratch: &Scratch) -> CaseResult {
+    let exts = format_exts();
+    let decoys = decoy_endings();
+    let nloc = t.range(2, 4);
+    let order = t.permutation(4);
+    let locales: Vec<String> = order.iter().take(nloc).map(|i| ["en", "fr", "de", "it"][*i].to_string()).collect();
+    let namespaces: Option<Vec<String>> = match t.pick(3) {
+        0 => None,
+        1 => Some(vec!["home".into()]),
+        _ => Some(vec!["home".into(), "common".into()]),
+    };
+    let subset = |t: &mut Tape| -> Vec<&'static str> {
+        if exts.len() == 1 {
+            return exts.to_vec();
+        }
+        match t.pick(3) {
+            0 => vec![exts[0]],
+            1 => vec![exts[1]],
+            _ => exts.to_vec(),
+        }
+    };
+    let mut units = vec![];
+    let ns_list: Vec<Option<String>> = match &namespaces {
+        None => vec![None],
+        Some(v) => v.iter().cloned().map(Some).collect(),
+    };
+    for ns in &ns_list {
+        for loc in &locales {
+            let e = subset(t);
+            let mut d = vec![];
+            for _ in 0..t.weighted(&[3, 2, 1]) {
+                let x = decoys[t.pick(decoys.len())];
+                if !d.contains(&x) {
+                    d.push(x);
+                }
+            }
+            units.push((ns.clone(), loc.clone(), e, d));
+        }
+    }
+    let a = Layout { dir_name: ["locales", "i18n", "assets/tr"][t.pick(3)].to_string(), locales, namespaces, units };
+    let chosen_a = observe_layout(&a, &scratch.0.join("extA"))?;
+    let mut observations = 2 * a.units.len() as u64 + 1;
+    let mut classes: Vec<String> = vec![format!("extensions={}", exts.len())];
+    let several = a.units.iter().any(|u| u.2.len() > 1);
+    if several {
+        classes.push("unit-with-both-extensions".into());
+    }
+    if a.units.iter().any(|u| !u.3.is_empty()) {
+        classes.push("decoy-files".into());
+    }
+    let mut changed_other = false;
+    if exts.len() > 1 {
+        let mut b = a.clone();
+        let u = t.pick(b.units.len());
+        let old = b.units[u].2.clone();
+        let mut new = subset(t);
+        if new == old {
+            new = if old.len() == 1 { exts.to_vec() } else { vec![exts[t.pick(exts.len())]] };
+        }
+        b.units[u].2 = new;
+        let chosen_b = observe_layout(&b, &scratch.0.join("extB"))?;
+        observations += 2 * b.units.len() as u64 + 1;
+        for i in 0..a.units.len() {
+            if i != u && chosen_a[i] != chosen_b[i] {
+                return Err(fail(
+                    "ext-choice-depends-on-other-files",
+                    json!({"layout_a": format!("{:?}", a), "layout_b": format!("{:?}", b), "unit": chosen_a[i], "read_in_b": chosen_b[i], "changed_unit": Layout::rel(&a.units[u].0, &a.units[u].1, "*")}),
+                ));
+            }
+        }
+        changed_other = true;
+        classes.push("second-layout-differing-in-one-unit".into());
+    }
+    Ok(CaseInfo {
+        hash: hash_str(&format!("{:?}", a)),
+        nontrivial: several || changed_other || a.units.iter().any(|u| !u.3.is_empty()),
+        classes,
+        sample: Some(json!({"layout": format!("{:?}", a), "read": chosen_a})),
+        observations,
+    })
+}
+
+fn run_ext(ctx: &mut Ctx) {
+    let scratch = Scratch::new("c19ext");
+    let cases = ctx.tier.scale(1500, 40000);
+    ctx.run_tapes("l1-ext", cases, 200, |t| ext_case(t, &scratch));
+    drop(scratch);
+}
+
+const EXT_WHAT: &str = "extension part (run in the JSON, the YAML and the JSON5 build of the harness): 2-4 locales, 0-2 namespaces, three locales-dir \
+     spellings; per (namespace, locale) a valid file under a non-empty subset of the format's extensions (YAML: yaml / yml / both) plus \
+     0-2 decoy files with the same stem and an ending of another format, another case or a backup suffix, holding text that parses in no \
+     format. oracle: the project loads; exactly one candidate per unit is reported as read and nothing else; the value of the key is \
+     the one written to the file reported as read; and for a second layout that differs only in the files of ONE unit every other unit \
+     is read from the same file as before. Which of `x.yaml` / `x.yml` wins when both exist is not asserted. non-trivial = a unit \
+     with both extensions, a decoy, or the second layout; distinct = hash of the layout";
+
 pub fn run(mut ctx: Ctx) -> ! {
+    if std::env::var("VERIF_C19_PART").as_deref() == Ok("ext") {
+        // the YAML and JSON5 harness builds run only this part
+        if let Some(path) = ctx.replay.clone() {
+            let scratch = Scratch::new("c19ext");
+            ctx.replay_tape("l1-ext", &path, |t| ext_case(t, &scratch));
+        } else {
+            run_ext(&mut ctx);
+        }
+        ctx.finish(EXT_WHAT, &[], 20)
+    }
     let scratch = Scratch::new("c19");
     if let Some(path) = ctx.replay.clone() {
-        ctx.replay_tape("l1", &path, |t| case(t, &scratch));
+        if Ctx::replay_engine(&path).as_deref() == Some("l1-ext") {
+            let s2 = Scratch::new("c19ext");
+            ctx.replay_tape("l1-ext", &path, |t| ext_case(t, &s2));
+        } else {
+            ctx.replay_tape("l1", &path, |t| case(t, &scratch));
+        }
     } else {
         let cases = ctx.tier.scale(6000, 150000);
         ctx.run_tapes("l1", cases, 400, |t| case(t, &scratch));
+        run_ext(&mut ctx);
     }
     drop(scratch);
     ctx.finish(
@@ -552,7 +777,8 @@ pub fn run(mut ctx: Ctx) -> ! {
         &[
             "Either (not asserted): default locale left out of `locales` but named as an inherits target",
             "the [package.metadata.leptos-i18n.inherits] sub-table spelling and the `[package.metadata]` inline-table spelling are undocumented and not generated",
-            "JSON build only; yaml/yml and json5 extensions are covered by the format builds of C10",
+            "the configuration part runs in the JSON build; the extension part (below) runs in the JSON, YAML and JSON5 builds",
+            EXT_WHAT,
         ],
         20,
     )
